@@ -106,39 +106,53 @@ def torn_caches(ses, prop):
     d, images, names = _mk_local_product(k=1, level="1.5", seed=ses.seed)
     n = 0
     bad = []
+    bounds = []
     try:
-        ref = e2e.canon(_open(d, use_cache=False, records_per_chunk=3))
-        _open(d, use_cache=False, create_cache=True, records_per_chunk=3)
-        idx = [p for p in pathlib.Path(cache_root).rglob("*.index")]
-        assert len(idx) == 1, idx
-        doc = idx[0].read_text()
-        L = len(doc)
-        step = 1 if ses.tier == "thorough" else max(1, L // 120)
-        cuts = sorted(set(list(range(0, min(L, 60))) + list(range(max(0, L - 60), L + 1)) + list(range(0, L + 1, step))))
-        adjacent = pathlib.Path(d) / (names[2] + ".index")
-        for where in ("local", "adjacent"):
-            for c in cuts:
-                n += 1
-                if where == "local":
-                    idx[0].write_text(doc[:c])
-                    adjacent.unlink(missing_ok=True)
-                else:
-                    idx[0].unlink(missing_ok=True)
-                    adjacent.write_text(doc[:c])
-                try:
-                    got = e2e.canon(_open(d, records_per_chunk=3))
-                    diff = e2e.first_difference(got, ref)
-                except BaseException as e:  # noqa: BLE001
-                    diff = f"raised {type(e).__name__}: {e}"[:160]
-                if diff:
-                    bad.append((where, c, diff))
-                    if len(bad) > 5:
-                        break
+        # byte prefixes (the crash point is a byte offset of the write). Level 1.5 and level 1.1: the latter's index holds
+        # non-ASCII unit strings, whose bytes must not be split into undecodable text
+        for level in ("1.5", "1.1"):
+            if level == "1.1":
+                shutil.rmtree(d, ignore_errors=True)
+                shutil.rmtree(cache_root, ignore_errors=True)
+                d, images, names = _mk_local_product(k=1, level="1.1", seed=ses.seed)
+            ref = e2e.canon(_open(d, use_cache=False, records_per_chunk=3))
+            _open(d, use_cache=False, create_cache=True, records_per_chunk=3)
+            idx = [p for p in pathlib.Path(cache_root).rglob("*.index")]
+            assert len(idx) == 1, idx
+            raw = idx[0].read_bytes()
+            doc = raw.decode()
+            L = len(raw)
+            step = 1 if ses.tier == "thorough" else max(1, L // (120 if level == "1.5" else 40))
+            special = [i + o for i, b in enumerate(raw) if b >= 0x80 for o in (0, 1)][:200]  # inside multi-byte characters
+            cuts = sorted(set(list(range(0, min(L, 60))) + list(range(max(0, L - 60), L + 1)) + list(range(0, L + 1, step)) + special))
+            bounds.append(f"level {level}: {len(cuts)} byte-prefix lengths of a {L}-byte index ({len(special)} inside multi-byte characters)")
+            adjacent = pathlib.Path(d) / (names[2] + ".index")
+            for where in ("local", "adjacent"):
+                for c in cuts:
+                    n += 1
+                    if where == "local":
+                        idx[0].write_bytes(raw[:c])
+                        adjacent.unlink(missing_ok=True)
+                    else:
+                        idx[0].unlink(missing_ok=True)
+                        adjacent.write_bytes(raw[:c])
+                    try:
+                        got = e2e.canon(_open(d, records_per_chunk=3))
+                        diff = e2e.first_difference(got, ref)
+                    except BaseException as e:  # noqa: BLE001
+                        diff = f"raised {type(e).__name__}: {e}"[:160]
+                    if diff:
+                        bad.append((level, where, c, diff))
+                        if len(bad) > 5:
+                            break
+            adjacent.unlink(missing_ok=True)
+            idx[0].parent.mkdir(parents=True, exist_ok=True)
+            idx[0].write_bytes(raw)
         ses.bounded_check(f"{prop}/bounded/default-open-with-torn-index", not bad,
-                          bound=f"{len(cuts)} prefix lengths (all within 60 of either end, every {step}th otherwise) of a {L}-byte index, "
-                                f"user cache dir and adjacent ({n} opens)", function="ceos_alos2.xarray.open_alos2", evaluations=n,
-                          replay=lambda m: {"confirmed": True, "input": {"location": bad[0][0], "prefix_length": bad[0][1]},
-                                            "observed": bad[0][2], "expected": "same tree as the uncached open"},
+                          bound="; ".join(bounds) + f"; all within 60 of either end, every k-th otherwise; user cache dir and adjacent ({n} opens)",
+                          function="ceos_alos2.xarray.open_alos2", evaluations=n,
+                          replay=lambda m: {"confirmed": True, "input": {"level": bad[0][0], "location": bad[0][1], "prefix_length": bad[0][2]},
+                                            "observed": bad[0][3], "expected": "same tree as the uncached open"},
                           detail={"wrong": str(bad[:2])[:300]})
         # repair: torn local file, then create_cache=True must leave a complete, usable index
         bad2 = []
